@@ -28,7 +28,7 @@ func init() {
 			"Both channel implementations (libp2p, local): Recv calls the user's handler only through that filter and only under handler ctx.Err() == nil; the handler list is touched only under messageHandlersMutex; the sequence counter is touched only through sync/atomic.AddUint64 in nextSeqno, and each Send takes exactly one fresh nextSeqno() per message on every path that publishes.",
 		NotDecided: "ordering between a cancellation and a handler call already in progress; libp2p pubsub's own delivery semantics; uint64 wrap-around of the counter.",
 		Fn: func(r *Run) {
-			r.Rule("C16.dedup", "test-and-set of the seen-cache in one critical section; delegate ⇐ ¬seen; key = sender ‖ seqno", 4)
+			r.Rule("C16.dedup", "test-and-set of the seen-cache in one critical section; the set only grows; delegate ⇐ ¬seen; key = sender ‖ seqno", 5)
 			r.Rule("C16.cancel", "user handler called only via the duplicate filter and under ctx.Err()==nil", 4)
 			r.Rule("C16.handlers", "messageHandlers only under messageHandlersMutex", 8)
 			r.Rule("C16.seqno", "counter only via atomic.AddUint64; one nextSeqno per Send", 6)
@@ -36,6 +36,21 @@ func init() {
 				locks := Sites(cl, `^sync\.Mutex\.Lock$`, false)
 				unlocks := Sites(cl, `^sync\.Mutex\.Unlock$`, false)
 				r.Cond(len(locks) == 1 && len(unlocks) == 1, "C16.dedup", FnName(cl)+"#one-section", cl.Pos(), "exactly one Lock/Unlock pair: the test and the set cannot be split")
+				// the seen-set only grows: no delete/clear, and the captured map variable is never replaced
+				shrinks := 0
+				EachInstr(cl, func(in ssa.Instruction) {
+					switch x := in.(type) {
+					case *ssa.Store:
+						if _, isFree := x.Addr.(*ssa.FreeVar); isFree {
+							shrinks++
+						}
+					case *ssa.Call:
+						if n := CalleeName(x); n == "builtin:delete" || n == "builtin:clear" {
+							shrinks++
+						}
+					}
+				})
+				r.Cond(shrinks == 0, "C16.dedup", FnName(cl)+"#cache-only-grows", cl.Pos(), "an entry of the seen-set must never be dropped or the set replaced (a retransmission of a forgotten message would be delivered again)")
 				held := LocksHeld(cl)
 				var lookup *ssa.Lookup
 				var update *ssa.MapUpdate
